@@ -10,7 +10,8 @@
       spyne/protocol/json.py, yaml.py  _ret, _ret_number, _ret_bool and the handler tables
       spyne/protocol/msgpack.py        integer_to_bytes / integer_from_bytes, get_class_name,
                                        gen_method_request_string, MessagePackRpc envelope
-    as of the repaired tree (proposed_fixes/C02-*.patch).  The json / yaml / msgpack
+      spyne/protocol/_inbase.py        decimal_from_unicode, integer_from_bytes (text forms)
+    as of the repaired tree (main + proposed_fixes/C02-*.patch).  The json / yaml / msgpack
     libraries are outside the model: the boundary is the parsed document tree [jv].
 
     Python exceptions are [out] values: [VFault] is spyne.error.ValidationError,
@@ -248,25 +249,41 @@ Definition in_true_false (j : jv) : option Z :=
   end.
 
 (** json.py / yaml.py / msgpack.py [_ret_number]: NON_NUMBER_TYPES is (list, dict, str, bytes);
-    a MessagePackRpc array is a tuple, which is not among them *)
-Definition ret_number (tuples : bool) (j : jv) : out dval :=
+    a MessagePackRpc array is a tuple, which is not among them.  [int_slot]: json.py / yaml.py
+    [_ret_number(cls, value)] with [issubclass(cls, Integer)]: a float is handed over as the
+    int it equals and refused when it is not integral (nan and the infinities are not);
+    msgpack.py's [_ret_number] (only used for Double there) has no such clause *)
+Definition ret_number (tuples int_slot : bool) (j : jv) : out dval :=
   match j with
   | JMap _ | JStr _ | JBytes _ => VFault
   | JList _ => if tuples then Ok (nat_of_doc j) else VFault
   | _ => match in_true_false j with
          | Some z => Ok (DLeaf (LInt z))     (* int(value) *)
-         | None => Ok (nat_of_doc j)
+         | None =>
+             match j with
+             | JFlt x =>
+                 if int_slot && int_slot_float_is_int then
+                   match float_class x with
+                   | FIntegral z => Ok (DLeaf (LInt z))
+                   | _ => VFault
+                   end
+                 else Ok (nat_of_doc j)
+             | _ => Ok (nat_of_doc j)
+             end
          end
   end.
 
-(** [_ret_bool] *)
+(** [_ret_bool]: None, True and False by identity; before that repair anything equal to
+    True or False (1, 0, 1.0, 0.0) *)
 Definition ret_bool (j : jv) : out dval :=
   match j with
   | JNull => Ok DNone
-  | _ => match in_true_false j with
-         | Some _ => Ok (nat_of_doc j)
-         | None => VFault
-         end
+  | JBool b => Ok (DLeaf (LBool b))
+  | _ => if ret_bool_by_identity then VFault
+         else match in_true_false j with
+              | Some _ => Ok (nat_of_doc j)
+              | None => VFault
+              end
   end.
 
 Definition all_ascii (l : list Z) : bool := forallb (fun b => (0 <=? b) && (b <? 128)) l.
@@ -336,7 +353,20 @@ Section Leaf.
     | _ => true
     end.
 
-  (** the conversion step: from_serstr / the Unicode branch *)
+  (** text that arrived as a byte string (msgpack bin, YAML !!binary) is decoded before it is
+      validated and parsed, for every leaf but ByteArray: unicode_from_bytes for Unicode,
+      inst.decode(self.string_encoding or 'utf8') otherwise; UnicodeError is a ValidationError *)
+  Definition text_of_bytes (k : lkind) (j : jv) : out jv :=
+    match k, j with
+    | KBytes, _ => Ok j
+    | _, JBytes b => match utf8_dec b with
+                     | Some t => Ok (JStr t)
+                     | None => VFault
+                     end
+    | _, _ => Ok j
+    end.
+
+  (** the conversion step: from_serstr / the Unicode branch, on the node [text_of_bytes] left *)
   Definition leaf_conv (k : lkind) (j : jv) : out dval :=
     match k with
     | KBytes =>
@@ -364,42 +394,43 @@ Section Leaf.
               | _ => Crash AttributeError
               end
         end
-    | KText =>
-        match j with
-        | JBytes b => match utf8_dec b with
-                      | Some t => Ok (DLeaf (LText t))
-                      | None => Crash UnicodeError
-                      end
-        | _ => Ok (nat_of_doc j)
-        end
+    | KText => Ok (nat_of_doc j)
     | KInt msl =>
         match j with
         | JNull => Ok DNone
         | _ =>
             if is_msgpack then
-              (* msgpack.py integer_from_bytes *)
+              (* msgpack.py integer_from_bytes: text goes to the inherited reader; a list or a
+                 map is refused, a float is handed over as the int it equals or refused *)
               match j with
               | JStr s => integer_from_text msl s
-              | JBytes b => if all_ascii b then integer_from_text msl b
-                            else if negb (ext_leb (Fin (len b)) msl) then VFault else VFault
+              | JBytes b => integer_from_text msl b
+              | JMap _ => VFault
+              | JList _ => if is_rpc then Ok (nat_of_doc j) else VFault
+              | JFlt x => match float_class x with
+                          | FIntegral z => Ok (DLeaf (LInt z))
+                          | _ => VFault
+                          end
               | _ => Ok (nat_of_doc j)
               end
-            else ret_number is_rpc j
+            else ret_number is_rpc true j
         end
-    | KDouble => match j with JNull => Ok DNone | _ => ret_number is_rpc j end
+    | KDouble => match j with JNull => Ok DNone | _ => ret_number is_rpc false j end
     | KBool => ret_bool j
     | KDecimal msl =>
+        (* _inbase.py decimal_from_unicode: a number that is not a bool is read from str() of
+           it, anything else that is not text is refused *)
         match j with
         | JNull => Ok DNone
         | JStr s => decimal_from_text msl s
-        | JInt _ | JFlt _ | JBool _ => Crash TypeError     (* len(string) *)
-        | JBytes b => if negb (ext_leb (Fin (len b)) msl) then VFault else Crash TypeError   (* D(bytes) *)
-        | JList _ => Crash ValueError      (* D(list): not a (sign, digits, exponent) triple *)
-        | JMap _ => Crash TypeError
+        | JInt z => decimal_from_text msl (str_int z)
+        | JFlt _ => Crash OtherExn     (* Decimal(repr(float)): outside the modelled region *)
+        | JBool _ | JBytes _ | JList _ | JMap _ => VFault
         end
     end.
 
-  (** cls.validate_native(cls, retval); may itself raise *)
+  (** cls.validate_native(cls, retval); may itself raise.  Double.validate_native judges nan
+      and the infinities by the declared range only (none is declared here) *)
   Definition num_native_ok (int_only : bool) (r : dval) : out bool :=
     match r with
     | DNone => Ok true
@@ -408,8 +439,8 @@ Section Leaf.
         match float_class x with
         | FIntegral _ => Ok true
         | FFrac => Ok (negb int_only)
-        | FInf => Ok false
-        | FNan => Crash InvalidOperation
+        | FInf => Ok (negb int_only)
+        | FNan => if int_only then Crash InvalidOperation else Ok true
         end
     | _ => Crash TypeError
     end.
@@ -428,14 +459,16 @@ Section Leaf.
        && (match k with KText => true | _ => false end)
        && negb (match j with JStr _ | JBytes _ => true | _ => false end)
     then VFault
-    else if c_soft c && (match j with JStr s => negb (validate_string k s) | _ => false end)
-    then VFault
     else
-      do r <- leaf_conv k j;
-      if c_soft c then
-        do ok <- validate_native nillable k r;
-        if ok then Ok r else VFault
-      else Ok r.
+      do j' <- text_of_bytes k j;
+      if c_soft c && (match j' with JStr s => negb (validate_string k s) | _ => false end)
+      then VFault
+      else
+        do r <- leaf_conv k j';
+        if c_soft c then
+          do ok <- validate_native nillable k r;
+          if ok then Ok r else VFault
+        else Ok r.
 End Leaf.
 
 (** * Structures *)
@@ -617,13 +650,18 @@ Section Struct.
     | kv :: r => do st' <- step_item rec ffs st kv; fold_items rec ffs st' r
     end.
 
-  (** _check_freq_dict; the two comparisons are generated from the source *)
+  (** _check_freq_dict; the two comparisons are generated from the source.  Only a flat
+      document counts the items of an array under the key of the array
+      ([hier_counts_array_items] is generated: [flat and ...] with flat=False here): in a
+      hierarchical document an array member occurs once or not at all, like any other single
+      member, and its items are counted where the array itself is read (against the
+      occurrence bounds of the item type, which Array() leaves at 0..unbounded) *)
   Definition freq_ok (ffs : list dfield) (freq : list Z) : bool :=
     forallb (fun fn =>
                let f := fst fn in let n := snd fn in
-               let '(mn, mx) := match df_ty f, df_max f with
-                                | DArr _, Some 1 => (0, None)
-                                | _, _ => (df_min f, df_max f)
+               let '(mn, mx) := match hier_counts_array_items, df_ty f, df_max f with
+                                | true, DArr _, Some 1 => (0, None)
+                                | _, _, _ => (df_min f, df_max f)
                                 end in
                negb (freq_low (Fin n) (Fin mn))
                && negb (freq_high (Fin n) (match mx with Some m => Fin m | None => PosInf end)))
